@@ -123,7 +123,11 @@ pub fn start_job(command: Arc<Command>) -> (Job, JoinHandle<()>) {
 							}
 						}
 					}
-					Some(ControlMessage { control, done }) = receiver.recv(&mut stop_timer) => {
+					message = receiver.recv(&mut stop_timer) => {
+						let Some(ControlMessage { control, done }) = message else {
+							trace!("control queue closed (all job handles dropped), stopping");
+							break 'main;
+						};
 						#[cfg(watchexec_verif)]
 						crate::verif::emit("deq", control.verif_kind(), done.verif_id());
 						match async {
